@@ -92,6 +92,9 @@ fn join_nals(r: &mut Rng, nals: &[Vec<u8>], decorate: bool) -> Vec<u8> {
     if decorate && r.chance(1, 6) {
         let n = r.range(1, 3) as usize;
         out.extend(std::iter::repeat(0u8).take(n));
+    } else if decorate && r.chance(1, 12) {
+        // the buffer ends in a bare start code (an empty last unit)
+        start_code(r, &mut out);
     }
     out
 }
